@@ -7,6 +7,15 @@ import Lean.Elab.Command
 /-- every function definition of `Generated/SSA_Num.lean` -/
 register_simp_attr gen_def
 
+/-- the tie theorems `Gen.X = model function` themselves, in the order they are proved: a later proof rewrites the
+    calls of already tied functions into the model before it unfolds anything (compositional ties) -/
+register_simp_attr gen_eq
+
+/-- the function definitions of a generated file that builds on ANOTHER generated file (`SSA_F128.lean` on
+    `SSA_Num.lean`): its own definitions only, so that a proof can unfold local helpers without unfolding the imported
+    definitions, which it rewrites into the model by their ties -/
+register_simp_attr gen_local
+
 /-- every package-level constant of `Generated/SSA_Num.lean` (unfolded after the functions) -/
 register_simp_attr gen_const
 
